@@ -8,6 +8,7 @@ mod sexp;
 mod layout;
 mod front;
 mod core;
+mod tables;
 
 use std::io::{BufRead, Write};
 use std::panic::{catch_unwind, AssertUnwindSafe};
@@ -36,6 +37,7 @@ fn main() {
         "layout" => layout::handle,
         "front" => front::handle,
         "core" => core::handle,
+        "tables" => tables::handle,
         _ => {
             eprintln!("unknown command {cmd}");
             std::process::exit(2);
